@@ -307,6 +307,21 @@ func check(t vkit.TB, c *hdrCase) (classes []string, nontrivial bool) {
 			fail("distribution", "CumulativeDistribution() is not monotone at %d: %+v", i, cd)
 		}
 	}
+	// copies are independent: what Export / Import / Merge produced must
+	// not change when the original goes on recording or is reset (this
+	// mutates h, so it comes last)
+	key = "independence-panic"
+	imp2 := hdrhist.Import(h.Export())
+	q50, mx2 := imp2.ValueAtQuantile(50), imp2.Max()
+	_ = h.RecordValue(lo)
+	_ = h.RecordValue(hi)
+	if !imp2.Equals(fresh) || imp2.TotalCount() != total || imp2.ValueAtQuantile(50) != q50 || imp2.Max() != mx2 {
+		fail("export-aliases", "a histogram imported from an Export changed when the original recorded two more values (TotalCount %d, want %d; q50 %d was %d; Max %d was %d)", imp2.TotalCount(), total, imp2.ValueAtQuantile(50), q50, imp2.Max(), mx2)
+	}
+	h.Reset()
+	if !imp2.Equals(fresh) || imp2.TotalCount() != total || imp2.ValueAtQuantile(50) != q50 || imp2.Max() != mx2 || fresh.TotalCount() != total {
+		fail("export-aliases", "a histogram imported from an Export (or merged from the original) changed when the original was reset (TotalCount %d / %d, want %d)", imp2.TotalCount(), fresh.TotalCount(), total)
+	}
 	key = "done"
 	distinct := 1
 	for i := 1; i < len(data); i++ {
